@@ -50,6 +50,11 @@ pub trait Hook {
   fn load_value(&self, _ev: &Event, latest: u64) -> u64 {
     latest
   }
+  /// Whether the non-atomic write just announced by `plain_write` is left out (an explorer that has found it to lie
+  /// outside the arena records that and lets the execution go on instead of damaging its own memory).
+  fn skip_plain_write(&self, _addr: usize, _len: usize) -> bool {
+    false
+  }
   /// Whether this `compare_exchange_weak`, which would succeed, fails spuriously instead (it is then not
   /// performed; the current value is returned as the error). Asked after `before`.
   fn weak_cas_fails(&self, _ev: &Event) -> bool {
@@ -268,9 +273,20 @@ pub mod shadow_core {
     #[inline]
     pub unsafe fn write_bytes<T>(dst: *mut T, val: u8, count: usize) {
       crate::verif::plain_write(dst as usize, count.wrapping_mul(::core::mem::size_of::<T>()));
+      if crate::verif::skip_plain_write(dst as usize, count.wrapping_mul(::core::mem::size_of::<T>())) {
+        return;
+      }
       unsafe { ::core::ptr::write_bytes(dst, val, count) }
       crate::verif::plain_written(dst as usize, count.wrapping_mul(::core::mem::size_of::<T>()));
     }
+  }
+}
+
+#[inline]
+pub fn skip_plain_write(addr: usize, len: usize) -> bool {
+  match hook() {
+    Some(h) => h.skip_plain_write(addr, len),
+    None => false,
   }
 }
 
